@@ -95,3 +95,33 @@ PROPS['C05'] = {
         "remove/swap_remove out of range destroy the array while already unwinding, where a second panic aborts by language rule; their drop accounting is decided under C09",
     ],
 }
+
+_ALLOC_RULE = ("enumeration shared by C15/C16: operation in {TryFrom<Vec>, TryFrom<Box<[T]>>, From<GA> for Vec / Box<[T]>, into_boxed_slice, into_vec, try_from_boxed_slice, try_from_vec, try_boxed_from_iter, boxed from_iter, "
+               "boxed into_iter (dropped after 0,1,N/2,N items), box_arr![x; N], default_boxed, boxed generate, boxed map/zip/fold/clone} x N in {0..8,16,33,100,1024} x element in {4-byte tracked, zero-sized tracked} (+ u8, u64, () for N<=8 and 33) "
+               "x source length L in {0,N-1,N,N+1,N+3} x Vec capacity in {len, len+1, 2len+3}; ")
+
+PROPS['C15'] = {
+    'level': 'exploration',
+    'technique': 'bounded exhaustive enumeration of (conversion, N, element, source length, capacity) on the real code under a recording global allocator; multi-MiB constructions in child processes on a 256 KiB stack',
+    'parts': [engine_part('heap-interop', 'e_alloc', 'C15', shards_quick=4)],
+    'rule': _ALLOC_RULE + ("oracle: contents/ids in order, Ok iff L == N else LengthError (documented panic for collect) with every source element dropped once, and for the successful O(1) conversions the data pointer is unchanged and the "
+             "recording allocator saw zero calls inside the conversion (try_from_vec only when len == capacity). Plus 12 constructions of 2^20-element u64/u128 arrays (8-16 MiB: default_boxed, boxed generate, box_arr! type and const forms, "
+             "boxed from_iter, try_boxed_from_iter, try_from_vec, into_vec round trip), each in its own #[inline(never)] function and child process on a thread with a 256 KiB stack (thorough: also the release build). "
+             "A case is one tuple; non-trivial = N > 0."),
+    'exhaustive': True,
+    'exhaustive_scope': 'the listed finite product; lengths and capacities are a lattice',
+    'assumptions': COMMON_ASSUME + ["Box<GenericArray>::clone of a multi-MiB array goes through the stack (std's Box::clone); it is not among the constructors the property names and is not asserted"],
+}
+
+PROPS['C16'] = {
+    'level': 'fault_enumeration',
+    'technique': 'exhaustive fault enumeration under a recording global allocator: every closure-call panic index in-process, and every allocation request of the operation failing in turn in a child process, on the real code',
+    'parts': [engine_part('allocator-log', 'e_alloc', 'C16', shards_quick=NCPU)],
+    'rule': _ALLOC_RULE + ("every case is recorded from input construction to the last drop. Fault modes: none (all cases); for N in {0,1,2,3,8,33} (thorough: all) a panic at every call index of the generator / mapping / folding closure, Clone, Default or "
+             "source next; and each allocator request made inside the operation failing in turn, in a child process. Oracle: no zero-size request, every release carries the size and alignment of its request, no double release, no block "
+             "live once all values are dropped (also after a caught panic); a failed request ends in SIGABRT with std's 'memory allocation of N bytes failed' (handle_alloc_error) — a SIGSEGV, a null-reference abort or survival is a violation. "
+             "A case is one (tuple, fault); non-trivial = the operation talks to the allocator or a fault fired."),
+    'exhaustive': True,
+    'exhaustive_scope': 'every panic index and every failing request of every listed case (allocation-failure children skipped for N in {100,1024} where the request sequence is the same as for smaller N)',
+    'assumptions': COMMON_ASSUME + ["the recording allocator wraps std::alloc::System; harness allocations are recorded too and must balance, the drop ledger is pre-sized so it never allocates inside a case"],
+}
